@@ -241,8 +241,8 @@ def run(ctx):
         for t in range(n):
             lazy_pts = [j for j in hotter[t] if 37 <= traces[t][j][1] <= 50][:40]
             pts = hotter[t] if (thorough or sc.name.startswith("shared-invalid")) else sorted(set(rng.sample(hotter[t], min(len(hotter[t]), per)) + lazy_pts))
-            if thorough and len(pts) > 700:
-                pts = rng.sample(pts, 700)
+            if thorough and len(pts) > 300:
+                pts = rng.sample(pts, 300)
             for a in pts:
                 others = [o for o in range(n) if o != t]
                 plans.append(("systematic-1", [t] * (a + 1) + [o for o in others for _ in range(len(traces[o]) + 5)]))
